@@ -55,6 +55,7 @@ fn gen(prop: &str, tier: &str, seed: u64) -> Vec<String> {
             interval_ops::c14_ext(&mut out, &ci);
             interval_ops::c14_ext(&mut out, &cf);
             interval_ops::c14_ext(&mut out, &cu);
+            interval_ops::c14_pairs(&mut out);
             interval_ops::c14_hash(&mut out, &ci);
             interval_ops::c14_hash(&mut out, &cs);
             interval_ops::c14_hash(&mut out, &cu);
